@@ -576,3 +576,14 @@ CHECKS['C18'].update(text=CHECKS['C18']['text'] + ' The block-loop framing also 
 CHECKS['C02'].update(text=CHECKS['C02']['text'] + ' The symbolic heap also models pointers to link fields (&obj->right, *link = ...) and '
                      'conditionals on constant flags, so one generic rotate(obj, toleft) with child-link accessors is compared as well.')
 CHECKS['C13'].update(text=CHECKS['C13']['text'] + ' Fields written by static helpers that only constructors call count as written by the constructor.')
+
+
+# ---- wave-16 extensions -------------------------------------------------------------------------------------------------------
+CHECKS['C19'].update(text=CHECKS['C19']['text'] + ' Q4: an in-place string routine that returns NULL has not stored into its string argument '
+                     'on that path.')
+CHECKS['C18'].update(text=CHECKS['C18']['text'] + ' H10: inside a loop the data pointer handed to MD5Update depends on something the loop changes, '
+                     'or is a local buffer a reader refills in the loop.')
+CHECKS['C20'].update(text=CHECKS['C20']['text'] + ' B11: the configuration parsers keep no mutable static state (no write to a non-const static, '
+                     'directly or by handing it to a callee as a writable buffer).')
+CHECKS['C06'].update(text=CHECKS['C06']['text'] + ' WID3: a size value (uint16_t / size_t expression over a ...size quantity) is not stored into '
+                     'a local or returned through a narrower integer type unless clamped or masked first.')
